@@ -343,6 +343,10 @@ ShowCallArg(a) == SP \o (CASE a.t = "id" -> Name(a.s) [] a.t = "mref" -> ShowMRe
 ShowAttr(a) == NL \o IND \o Name(a.key) \o Pun(":") \o SP \o (IF a.val.t = "str" THEN StrP(a.val.s) ELSE ShowE(a.val.e))
 FrameExprCmds == {"SET-FREQUENCY", "SET-PHASE", "SET-SCALE", "SHIFT-FREQUENCY", "SHIFT-PHASE"}
 
+\* timing.rs:33-66: without a frame name nothing separates the qubits from the duration, so a compound duration
+\* (infix, function call, literal with an imaginary part) is grouped in parentheses
+GroupDelayDuration(i) == i.frame_names = <<>> /\ (\/ i.duration.t \in {"inf", "fn"}
+                                                  \/ (i.duration.t = "num" /\ ~i.duration.im.m.z))
 RECURSIVE PrintI(_)
 LineI(i)    == NL \o IND \o PrintI(i)
 TabLineI(i) == TAB \o PrintI(i)
@@ -390,7 +394,7 @@ PrintI(i) ==
     [] i.k = "Reset" -> Kw("RESET") \o (IF IsSome(i.qubit) THEN SP \o ShowQ(i.qubit.some) ELSE <<>>)
     [] i.k = "Delay" -> Kw("DELAY") \o Each(SpQ, i.qubits)
                           \o FlattenSeq([n \in DOMAIN i.frame_names |-> SP \o StrP(i.frame_names[n])])
-                          \o SP \o ShowE(i.duration)
+                          \o SP \o (IF GroupDelayDuration(i) THEN Paren(ShowE(i.duration)) ELSE ShowE(i.duration))
     [] i.k = "Fence" -> Kw("FENCE") \o Each(SpQ, i.qubits)
     [] i.k = "Pulse" -> Blocking(i) \o Kw("PULSE") \o SP \o ShowFrame(i.frame) \o SP \o ShowWf(i.waveform)
     [] i.k = "Capture" -> Blocking(i) \o Kw("CAPTURE") \o SP \o ShowFrame(i.frame) \o SP \o ShowWf(i.waveform)
@@ -647,15 +651,16 @@ ReadDelayTail(ts, qs, fs, d) ==
 ReadDelay(ts, p) ==
   Bind(ReadQs(ts, p), LAMBDA qs : Bind(ReadStrs(ts, qs.p), LAMBDA fs : ReadDelayTail(ts, qs, fs, ReadExpr(ts, fs.p))))
 
-\* Without frame names nothing separates the qubits from the duration, and the printed form is ambiguous when the
+\* Without frame names nothing separates the qubits from the duration, and a printed form is ambiguous when the
 \* duration starts with tokens that can be qubits and what follows them is an expression of its own:
 \* `DELAY 0 2 - 1` is (qubits 0; duration 2 - 1) and (qubits 0 2; duration -1); `DELAY 0 sin(1)`, `DELAY q %x - 1`
-\* likewise.  Two different values print to the same tokens, so no reader can return both; parse_delay returns
-\* the one with more qubits.
+\* likewise; parse_delay returns the reading with more qubits.  Since /repo commit bf4c513 the writer groups compound
+\* durations (GroupDelayDuration), which leaves one family: a prefix plus (printed as nothing) over a function call.
 QubitLike(k) == k.c \in {"int", "var", "id"}
 AmbiguousDuration(d) ==      \* d: the tokens of the printed duration
   \E n \in 1..(Len(d) - 1) : (\A j \in 1..n : QubitLike(d[j])) /\ ReadWholeExpr(SubSeq(d, n + 1, Len(d))).ok
-DelayAmbiguous(i) == i.k = "Delay" /\ i.frame_names = <<>> /\ AmbiguousDuration(Toks(ShowE(i.duration)))
+DelayDurationPieces(i) == IF GroupDelayDuration(i) THEN Paren(ShowE(i.duration)) ELSE ShowE(i.duration)
+DelayAmbiguous(i) == i.k = "Delay" /\ i.frame_names = <<>> /\ AmbiguousDuration(Toks(DelayDurationPieces(i)))
 
 ReadDefGateSpec(ts, name, ps, as, ty, q) ==     \* q: position after ":" NL
   CASE ty = "MATRIX" -> Then(ReadRows(ts, q), LAMBDA r : Ok(DefGate(name, ps, SpecMatrix(r.v)), r.p))
